@@ -1,7 +1,7 @@
 """C05 — every reported position points at the text it is about."""
 import re, time
 import z3
-from framework import kernel, Finding, fn_paths, Part, par_map, merge_part, replay_factory
+from framework import kernel, Finding, fn_paths, Part, par_map, merge_part, replay_factory, REPLAYS
 from mirsym.machine import *
 from mirsym.mirread import Unsupported
 from . import lexcommon as LC
@@ -345,4 +345,102 @@ def k5(ctx, kr):
     kr.assumptions = ['LSP character offsets counted in Unicode scalar values (as the code does); UTF-16 surrogate pairs outside the claim']
     kr.exhaustive = True
 
-KERNELS = [k1, k2, k5]
+# ---------------------------------------------------------------------------------------------- K6 terminal rendering: every label is drawn in its own file at its own span
+@kernel('K6 cli.terminal_labels')
+def k6(ctx, kr):
+    from . import lspcommon as LSP
+    P = ctx.program(['ironplcc', 'ironplc-dsl', 'ironplc-parser', 'ironplc-analyzer'])
+    key = P.find_fn('ironplcc', 'cli::handle_diagnostics')
+    FILES = ['/p/a.st', '/p/b.st', '/p/c.st']
+    emitted = []; st = {}
+    def st_files_new(M, fr, c, a): return Agg('SimpleFiles', [VecV()])
+    def st_files_add(M, fr, c, a):
+        f = M.deref(a[0]); f.f[0].items.append(Agg('()', [a[1], a[2]])); return len(f.f[0].items) - 1
+    def st_emit(M, fr, c, a):
+        emitted.append((deep_clone(M.deref(a[2])), M.deref(a[3]))); return ok(UNIT)
+    def st_label_new(M, fr, c, a): return Agg('CodeSpanLabel', [a[0], a[1], a[2], Str('')])
+    def st_label_msg(M, fr, c, a): a[0].f[3] = a[1]; return a[0]
+    def st_diag_new(M, fr, c, a): return Agg('CodeSpanDiagnostic', [a[0], none(), Str(''), VecV()])
+    def st_with(M, fr, c, a):
+        d = a[0]; what = c.rsplit('::', 1)[1].split('<')[0]
+        if what == 'with_code': d.f[1] = some(a[1])
+        elif what == 'with_message': d.f[2] = a[1]
+        elif what == 'with_labels': d.f[3] = a[1]
+        return d
+    stubs = {r'^codespan_reporting::files::SimpleFiles::<.*>::new$': st_files_new, r'^codespan_reporting::files::SimpleFiles::<.*>::add(::<.*>)?$': st_files_add,
+             r'^codespan_reporting::term::emit': st_emit, r'^codespan_reporting::diagnostic::Label::<.*>::new(::<.*>)?$': st_label_new,
+             r'^codespan_reporting::diagnostic::Label::<.*>::with_message': st_label_msg, r'^codespan_reporting::diagnostic::Diagnostic::<.*>::new(::<.*>)?$': st_diag_new,
+             r'^codespan_reporting::diagnostic::Diagnostic::<.*>::with_(code|message|labels)': st_with,
+             r'^codespan_reporting::term::termcolor::StandardStream::(stderr|lock)$|^termcolor::StandardStream::(stderr|lock)$': lambda M, fr, c, a: Opaque('stream'),
+             r'^<codespan_reporting::term::Config as std::default::Default>::default$': lambda M, fr, c, a: Opaque('config'),
+             r'^<.*StandardStreamLock.* as std::ops::Drop>::drop$|^std::ptr::drop_in_place': lambda M, fr, c, a: UNIT}
+    M = Machine(P, stubs=stubs)
+    def label(file, lo, hi, msg): return LSP.mkstruct(P, 'Label', location=Agg('Location', [lo, hi]), file_id=Agg('FileId', [Str(file)]), message=Str(msg))
+    for nsec in (0, 1, 2):
+        def entry(M):
+            emitted.clear()
+            sel = []
+            for j in range(1 + nsec):
+                v = M.fresh_bv('file%d' % j, 8); M.declare_domain(v, [0, 1, 2])
+                k = 0 if M.branch(v == 0) else (1 if M.branch(v == 1) else 2)
+                sel.append(k)
+            st['sel'] = sel
+            srcs = VecV([Agg('()', [Agg('FileId', [Str(f)]), LSP.mkstruct(P, 'Source', file_id=Agg('FileId', [Str(f)]), data=Str('text of %s ' % f * 4), library=none())]) for f in FILES])
+            project = Ref(Cell(Agg('project::FileBackedProject', [srcs])))
+            labels = [label(FILES[k], 3 + 5 * j, 6 + 5 * j, 'label%d' % j) for j, k in enumerate(sel)]
+            d = LSP.mkstruct(P, 'Diagnostic', code=Str('P0007'), description=Str('desc'), primary=labels[0], described=VecV(), secondary=VecV(labels[1:]))
+            return M.call_fn(key, [Ref(Cell(VecV([d]))), some(project), False])
+        def on_path(M, pr):
+            kr.paths += 1
+            if pr.inconclusive: kr.inconc(pr.inconclusive); return
+            kr.nontrivial += 1
+            sel = st['sel']; names = [FILES[k] for k in sel]
+            wit = {'primary_in': names[0], 'secondary_in': names[1:]}
+            rep = ('terminal_labels', (names,))
+            def add(role, what):
+                if not any(f.role == role for f in kr.findings): kr.findings.append(Finding(role, what, wit, replay=REPLAYS['terminal_labels'](names)))
+            shape = 'primary-%s/secondaries-%s' % ('abc'[sel[0]], ''.join('abc'[k] for k in sel[1:]) or 'none')
+            if pr.panic: add('C05/K6/panic/' + shape, 'rendering the diagnostic panics: ' + pr.panic.msg[:60]); return
+            if len(emitted) != 1: add('C05/K6/emit-count/' + shape, '%d diagnostics rendered for one diagnostic' % len(emitted)); return
+            files, cd = emitted[0]
+            table = [M.deref(e.f[0]).conc() for e in files.f[0].items]
+            got = []
+            for l in cd.f[3].items:
+                idx = simp(l.f[1]); rg = M.deref(l.f[2]) if isinstance(l.f[2], Ref) else l.f[2]
+                got.append((table[idx] if isinstance(idx, int) and idx < len(table) else None, simp(rg.f[0]), simp(rg.f[1])))
+            want = [(names[j], 3 + 5 * j, 6 + 5 * j) for j in range(len(sel))]
+            if got != want:
+                add('C05/K6/label-drawn-elsewhere/' + shape, 'labels %s are drawn at %s (file table %s)' % (want, got, table))
+            elif len(kr.validate) < 2 and len(set(names)) > 1: kr.validate.append(rep)
+            if len(kr.samples) < 2: kr.samples.append({'labels': want, 'drawn': got})
+        M.explore(entry, on_path)
+    kr.queries += M.stats['smt']
+    kr.functions = fn_paths(P, M.encoded); kr.models = sorted(M.models_used)
+    kr.stubs = ['codespan_reporting SimpleFiles::{new,add} (a table; add returns the index), term::emit records its arguments, Label/Diagnostic builders by contract; terminal stream opaque']
+    kr.bounds = 'one diagnostic with a primary label and 0..2 secondary labels, each label in any of 3 project files (symbolic choice), through cli::handle_diagnostics with output enabled'
+    kr.exhaustive = True
+    kr.outside = ['layout of the text codespan prints; several diagnostics in one batch; files not known to the project']
+
+@replay_factory('terminal_labels')
+def _replay_terminal_labels(names):
+    def rp(ctx):
+        # a function block declared in one file, invoked with an undefined input in another: primary label at the call, secondary at the declaration
+        decl = 'FUNCTION_BLOCK Tally\nVAR_INPUT\n  inc : BOOL;\nEND_VAR\nEND_FUNCTION_BLOCK\n'
+        use = '(* padding so that offsets differ *)\nPROGRAM main\nVAR\n  t : Tally;\nEND_VAR\n  t(nosuch := TRUE);\nEND_PROGRAM\n'
+        same = len(names) < 2 or names[0] == names[1]
+        files = {'main.st': (decl + use) if same else use}
+        if not same: files['tally.st'] = decl
+        rc, out, err_ = ctx.ironplcc(['check'], {k: v.encode() for k, v in files.items()})
+        text = re.sub(r'\x1b\[[0-9;]*m', '', err_)
+        # the secondary label "Function block declaration" must be drawn in the section of the file that declares Tally
+        section = None; where = None
+        for line in text.split('\n'):
+            m = re.search(r'┌─ (\S+?):(\d+):(\d+)', line)
+            if m: section = m.group(1)
+            if 'Function block declaration' in line and not line.startswith('error'): where = section
+        want = 'main.st' if same else 'tally.st'
+        bad = where is None or not where.endswith(want)
+        return bad, {'files': sorted(files), 'declaration_label_drawn_in': where, 'expected_in': want, 'stderr': text[-600:]}
+    return rp
+
+KERNELS = [k1, k2, k5, k6]
